@@ -1,0 +1,533 @@
+//go:build verif
+
+// Contracts (third batch) for pkg/document/table.go, read by /verif/engine (govc): the cell-level writers and
+// formatters, the row/table formatters, the readers and the iterators (property C09). Every one of them can be
+// called between two structural edits, so each contract says: no panic for any arguments on a table that satisfies
+// the ownership invariants, failure leaves the heap untouched, success preserves the ownership predicates
+// (rowsOwn, cellPropsOwn, rowPropsOwn, cellParasOwn, paraRunsOwn - the preconditions of the structural editors)
+// and writes only the addressed cell / row / table.
+// Comments only: with or without the build tag this file adds no code to the package.
+package document
+
+// ---------------------------------------------------------------- writers of cell content
+
+//@ func (*Table).SetCellFormattedText
+//@ props C09
+//@ requires t != nil && rowsOwn(t)
+//@ modifies TableCell.Paragraphs
+//@ ensures err == nil <==> (0 <= row && row < len(t.Rows) && 0 <= col && col < len(t.Rows[row].Cells))
+//@ ensures err != nil ==> unchangedHeap()
+//@ ensures err == nil ==> len(t.Rows[row].Cells[col].Paragraphs) == 1 && freshArr(t.Rows[row].Cells[col].Paragraphs) && t.Rows[row].Cells[col].Paragraphs[0].Properties == nil && len(t.Rows[row].Cells[col].Paragraphs[0].Runs) == 1 && freshArr(t.Rows[row].Cells[col].Paragraphs[0].Runs) && t.Rows[row].Cells[col].Paragraphs[0].Runs[0].Text.Content == text
+//@ ensures err == nil && format == nil ==> t.Rows[row].Cells[col].Paragraphs[0].Runs[0].Properties == nil
+//@ ensures err == nil && format != nil ==> fresh(t.Rows[row].Cells[col].Paragraphs[0].Runs[0].Properties) && ((t.Rows[row].Cells[col].Paragraphs[0].Runs[0].Properties.Bold != nil) == format.Bold) && ((t.Rows[row].Cells[col].Paragraphs[0].Runs[0].Properties.Italic != nil) == format.Italic) && ((t.Rows[row].Cells[col].Paragraphs[0].Runs[0].Properties.FontSize != nil) == (format.FontSize > 0)) && ((t.Rows[row].Cells[col].Paragraphs[0].Runs[0].Properties.Color != nil) == (format.FontColor != "")) && ((t.Rows[row].Cells[col].Paragraphs[0].Runs[0].Properties.FontFamily != nil) == (format.FontFamily != ""))
+//@ ensures err == nil && format != nil && format.FontSize > 0 ==> t.Rows[row].Cells[col].Paragraphs[0].Runs[0].Properties.FontSize.Val == itoa(format.FontSize * 2)
+//@ ensures err == nil && format != nil && format.FontColor != "" ==> t.Rows[row].Cells[col].Paragraphs[0].Runs[0].Properties.Color.Val == format.FontColor
+//@ ensures err == nil ==> forall r int, c int :: 0 <= r && r < len(t.Rows) && 0 <= c && c < len(t.Rows[r].Cells) && (r != row || c != col) ==> t.Rows[r].Cells[c].Paragraphs == old(t.Rows[r].Cells[c].Paragraphs)
+//@ ensures err == nil ==> rowsOwn(t)
+//@ ensures err == nil && old(cellPropsOwn(t)) ==> cellPropsOwn(t)
+//@ ensures err == nil && old(rowPropsOwn(t)) ==> rowPropsOwn(t)
+//@ ensures err == nil && old(cellParasOwn(t)) ==> cellParasOwn(t)
+//@ ensures err == nil && old(cellParasOwn(t)) && old(paraRunsOwn(t)) ==> paraRunsOwn(t)
+
+//@ func (*Table).AddCellFormattedParagraph
+//@ props C09
+//@ requires t != nil && rowsOwn(t) && cellParasOwn(t)
+//@ modifies TableCell.Paragraphs, Paragraph.*
+//@ ensures err == nil <==> (0 <= row && row < len(t.Rows) && 0 <= col && col < len(t.Rows[row].Cells))
+//@ ensures err != nil ==> unchangedHeap() && result0 == nil
+//@ ensures err == nil ==> len(t.Rows[row].Cells[col].Paragraphs) == old(len(t.Rows[row].Cells[col].Paragraphs)) + 1
+//@ ensures err == nil ==> result0 == &t.Rows[row].Cells[col].Paragraphs[len(t.Rows[row].Cells[col].Paragraphs) - 1]
+//@ ensures err == nil ==> len(result0.Runs) == 1 && freshArr(result0.Runs) && result0.Runs[0].Text.Content == text && result0.Runs[0].Text.Space == "preserve" && result0.Properties == nil && fresh(result0.Runs[0].Properties)
+//@ ensures err == nil && format == nil ==> result0.Runs[0].Properties.Bold == nil && result0.Runs[0].Properties.Italic == nil && result0.Runs[0].Properties.FontSize == nil && result0.Runs[0].Properties.Color == nil && result0.Runs[0].Properties.FontFamily == nil && result0.Runs[0].Properties.Underline == nil && result0.Runs[0].Properties.Strike == nil && result0.Runs[0].Properties.Highlight == nil
+//@ ensures err == nil && format != nil ==> ((result0.Runs[0].Properties.Bold != nil) == format.Bold) && ((result0.Runs[0].Properties.Italic != nil) == format.Italic) && ((result0.Runs[0].Properties.FontSize != nil) == (format.FontSize > 0)) && ((result0.Runs[0].Properties.Color != nil) == (format.FontColor != "")) && ((result0.Runs[0].Properties.FontFamily != nil) == (format.FontFamily != "")) && ((result0.Runs[0].Properties.Underline != nil) == format.Underline) && ((result0.Runs[0].Properties.Strike != nil) == format.Strike) && ((result0.Runs[0].Properties.Highlight != nil) == (format.Highlight != ""))
+//@ ensures err == nil && format != nil && format.FontSize > 0 ==> result0.Runs[0].Properties.FontSize.Val == itoa(format.FontSize * 2)
+//@ ensures err == nil ==> forall k int :: 0 <= k && k < old(len(t.Rows[row].Cells[col].Paragraphs)) ==> t.Rows[row].Cells[col].Paragraphs[k] == old(t.Rows[row].Cells[col].Paragraphs[k])
+//@ ensures err == nil ==> forall r int, c int :: 0 <= r && r < len(t.Rows) && 0 <= c && c < len(t.Rows[r].Cells) && (r != row || c != col) ==> t.Rows[r].Cells[c].Paragraphs == old(t.Rows[r].Cells[c].Paragraphs)
+//@ ensures err == nil ==> forall r int, c int, k int :: 0 <= r && r < len(t.Rows) && 0 <= c && c < len(t.Rows[r].Cells) && (r != row || c != col) && 0 <= k && k < len(t.Rows[r].Cells[c].Paragraphs) ==> t.Rows[r].Cells[c].Paragraphs[k] == old(t.Rows[r].Cells[c].Paragraphs[k])
+//@ ensures err == nil ==> cellParasOwn(t)
+//@ ensures err == nil ==> rowsOwn(t)
+//@ ensures err == nil && old(cellPropsOwn(t)) ==> cellPropsOwn(t)
+//@ ensures err == nil && old(rowPropsOwn(t)) ==> rowPropsOwn(t)
+//@ ensures err == nil && old(paraRunsOwn(t)) && (forall k int :: 0 <= k && k < old(len(t.Rows[row].Cells[col].Paragraphs)) ==> t.Rows[row].Cells[col].Paragraphs[k] == old(t.Rows[row].Cells[col].Paragraphs[k])) && (forall r int, c int, k int :: 0 <= r && r < len(t.Rows) && 0 <= c && c < len(t.Rows[r].Cells) && (r != row || c != col) && 0 <= k && k < len(t.Rows[r].Cells[c].Paragraphs) ==> t.Rows[r].Cells[c].Paragraphs[k] == old(t.Rows[r].Cells[c].Paragraphs[k])) ==> paraRunsOwn(t)
+
+// ---------------------------------------------------------------- formatters of one cell's properties object
+// Each of them allocates the properties object on demand (fresh, hence shared with no other cell), writes ONE of its
+// fields and leaves every other cell's properties pointer and the same field of every other properties object alone.
+
+//@ func (*Table).SetCellShading
+//@ props C09
+//@ requires t != nil && rowsOwn(t) && cellPropsOwn(t)
+//@ modifies TableCell.Properties, TableCellProperties.Shd
+//@ ensures err == nil <==> (0 <= row && row < len(t.Rows) && 0 <= col && col < len(t.Rows[row].Cells) && config != nil)
+//@ ensures err != nil ==> unchangedHeap()
+//@ ensures err == nil ==> t.Rows[row].Cells[col].Properties != nil && (old(t.Rows[row].Cells[col].Properties) != nil ==> t.Rows[row].Cells[col].Properties == old(t.Rows[row].Cells[col].Properties)) && (old(t.Rows[row].Cells[col].Properties) == nil ==> fresh(t.Rows[row].Cells[col].Properties))
+//@ ensures err == nil ==> t.Rows[row].Cells[col].Properties.Shd != nil && fresh(t.Rows[row].Cells[col].Properties.Shd) && t.Rows[row].Cells[col].Properties.Shd.Val == string(config.Pattern) && t.Rows[row].Cells[col].Properties.Shd.Color == config.ForegroundColor && t.Rows[row].Cells[col].Properties.Shd.Fill == config.BackgroundColor
+//@ ensures err == nil ==> t.Rows[row].Cells[col].Properties.GridSpan == old(ite(t.Rows[row].Cells[col].Properties == nil, nil, t.Rows[row].Cells[col].Properties.GridSpan)) && t.Rows[row].Cells[col].Properties.VMerge == old(ite(t.Rows[row].Cells[col].Properties == nil, nil, t.Rows[row].Cells[col].Properties.VMerge)) && t.Rows[row].Cells[col].Properties.TcBorders == old(ite(t.Rows[row].Cells[col].Properties == nil, nil, t.Rows[row].Cells[col].Properties.TcBorders)) && t.Rows[row].Cells[col].Properties.TextDirection == old(ite(t.Rows[row].Cells[col].Properties == nil, nil, t.Rows[row].Cells[col].Properties.TextDirection)) && t.Rows[row].Cells[col].Properties.VAlign == old(ite(t.Rows[row].Cells[col].Properties == nil, nil, t.Rows[row].Cells[col].Properties.VAlign))
+//@ ensures err == nil ==> forall r int, c int :: 0 <= r && r < len(t.Rows) && 0 <= c && c < len(t.Rows[r].Cells) && (r != row || c != col) ==> t.Rows[r].Cells[c].Properties == old(t.Rows[r].Cells[c].Properties) && (t.Rows[r].Cells[c].Properties != nil ==> t.Rows[r].Cells[c].Properties.Shd == old(t.Rows[r].Cells[c].Properties.Shd))
+//@ ensures err == nil ==> rowsOwn(t) && cellPropsOwn(t)
+//@ ensures err == nil && old(rowPropsOwn(t)) ==> rowPropsOwn(t)
+//@ ensures err == nil && old(cellParasOwn(t)) ==> cellParasOwn(t)
+//@ ensures err == nil && old(paraRunsOwn(t)) ==> paraRunsOwn(t)
+
+//@ func (*Table).SetCellTextDirection
+//@ props C09
+//@ requires t != nil && rowsOwn(t) && cellPropsOwn(t)
+//@ modifies TableCell.Properties, TableCellProperties.TextDirection
+//@ ensures err == nil <==> (0 <= row && row < len(t.Rows) && 0 <= col && col < len(t.Rows[row].Cells))
+//@ ensures err != nil ==> unchangedHeap()
+//@ ensures err == nil ==> t.Rows[row].Cells[col].Properties != nil && (old(t.Rows[row].Cells[col].Properties) != nil ==> t.Rows[row].Cells[col].Properties == old(t.Rows[row].Cells[col].Properties)) && (old(t.Rows[row].Cells[col].Properties) == nil ==> fresh(t.Rows[row].Cells[col].Properties))
+//@ ensures err == nil ==> t.Rows[row].Cells[col].Properties.TextDirection != nil && fresh(t.Rows[row].Cells[col].Properties.TextDirection) && t.Rows[row].Cells[col].Properties.TextDirection.Val == string(direction)
+//@ ensures err == nil ==> t.Rows[row].Cells[col].Properties.GridSpan == old(ite(t.Rows[row].Cells[col].Properties == nil, nil, t.Rows[row].Cells[col].Properties.GridSpan)) && t.Rows[row].Cells[col].Properties.VMerge == old(ite(t.Rows[row].Cells[col].Properties == nil, nil, t.Rows[row].Cells[col].Properties.VMerge)) && t.Rows[row].Cells[col].Properties.TcBorders == old(ite(t.Rows[row].Cells[col].Properties == nil, nil, t.Rows[row].Cells[col].Properties.TcBorders)) && t.Rows[row].Cells[col].Properties.Shd == old(ite(t.Rows[row].Cells[col].Properties == nil, nil, t.Rows[row].Cells[col].Properties.Shd)) && t.Rows[row].Cells[col].Properties.VAlign == old(ite(t.Rows[row].Cells[col].Properties == nil, nil, t.Rows[row].Cells[col].Properties.VAlign))
+//@ ensures err == nil ==> forall r int, c int :: 0 <= r && r < len(t.Rows) && 0 <= c && c < len(t.Rows[r].Cells) && (r != row || c != col) ==> t.Rows[r].Cells[c].Properties == old(t.Rows[r].Cells[c].Properties) && (t.Rows[r].Cells[c].Properties != nil ==> t.Rows[r].Cells[c].Properties.TextDirection == old(t.Rows[r].Cells[c].Properties.TextDirection))
+//@ ensures err == nil ==> rowsOwn(t) && cellPropsOwn(t)
+//@ ensures err == nil && old(rowPropsOwn(t)) ==> rowPropsOwn(t)
+//@ ensures err == nil && old(cellParasOwn(t)) ==> cellParasOwn(t)
+//@ ensures err == nil && old(paraRunsOwn(t)) ==> paraRunsOwn(t)
+
+//@ func (*Table).SetCellBorders
+//@ props C09
+//@ requires t != nil && rowsOwn(t) && cellPropsOwn(t)
+//@ modifies TableCell.Properties, TableCellProperties.TcBorders
+//@ ensures err == nil <==> (0 <= row && row < len(t.Rows) && 0 <= col && col < len(t.Rows[row].Cells) && config != nil)
+//@ ensures err != nil ==> unchangedHeap()
+//@ ensures err == nil ==> t.Rows[row].Cells[col].Properties != nil && (old(t.Rows[row].Cells[col].Properties) != nil ==> t.Rows[row].Cells[col].Properties == old(t.Rows[row].Cells[col].Properties)) && (old(t.Rows[row].Cells[col].Properties) == nil ==> fresh(t.Rows[row].Cells[col].Properties))
+//@ ensures err == nil ==> t.Rows[row].Cells[col].Properties.TcBorders != nil && fresh(t.Rows[row].Cells[col].Properties.TcBorders)
+//@ ensures err == nil ==> ((t.Rows[row].Cells[col].Properties.TcBorders.Top != nil) == (config.Top != nil)) && ((t.Rows[row].Cells[col].Properties.TcBorders.Left != nil) == (config.Left != nil)) && ((t.Rows[row].Cells[col].Properties.TcBorders.Bottom != nil) == (config.Bottom != nil)) && ((t.Rows[row].Cells[col].Properties.TcBorders.Right != nil) == (config.Right != nil)) && ((t.Rows[row].Cells[col].Properties.TcBorders.TL2BR != nil) == (config.DiagDown != nil)) && ((t.Rows[row].Cells[col].Properties.TcBorders.TR2BL != nil) == (config.DiagUp != nil)) && t.Rows[row].Cells[col].Properties.TcBorders.InsideH == nil && t.Rows[row].Cells[col].Properties.TcBorders.InsideV == nil
+//@ ensures err == nil && config.Top != nil ==> fresh(t.Rows[row].Cells[col].Properties.TcBorders.Top) && t.Rows[row].Cells[col].Properties.TcBorders.Top.Val == string(config.Top.Style) && t.Rows[row].Cells[col].Properties.TcBorders.Top.Sz == itoa(config.Top.Width) && t.Rows[row].Cells[col].Properties.TcBorders.Top.Space == itoa(config.Top.Space) && t.Rows[row].Cells[col].Properties.TcBorders.Top.Color == config.Top.Color
+//@ ensures err == nil && config.Left != nil ==> fresh(t.Rows[row].Cells[col].Properties.TcBorders.Left) && t.Rows[row].Cells[col].Properties.TcBorders.Left.Val == string(config.Left.Style) && t.Rows[row].Cells[col].Properties.TcBorders.Left.Sz == itoa(config.Left.Width)
+//@ ensures err == nil && config.Bottom != nil ==> fresh(t.Rows[row].Cells[col].Properties.TcBorders.Bottom) && t.Rows[row].Cells[col].Properties.TcBorders.Bottom.Val == string(config.Bottom.Style) && t.Rows[row].Cells[col].Properties.TcBorders.Bottom.Sz == itoa(config.Bottom.Width)
+//@ ensures err == nil && config.Right != nil ==> fresh(t.Rows[row].Cells[col].Properties.TcBorders.Right) && t.Rows[row].Cells[col].Properties.TcBorders.Right.Val == string(config.Right.Style) && t.Rows[row].Cells[col].Properties.TcBorders.Right.Sz == itoa(config.Right.Width)
+//@ ensures err == nil ==> t.Rows[row].Cells[col].Properties.GridSpan == old(ite(t.Rows[row].Cells[col].Properties == nil, nil, t.Rows[row].Cells[col].Properties.GridSpan)) && t.Rows[row].Cells[col].Properties.VMerge == old(ite(t.Rows[row].Cells[col].Properties == nil, nil, t.Rows[row].Cells[col].Properties.VMerge)) && t.Rows[row].Cells[col].Properties.Shd == old(ite(t.Rows[row].Cells[col].Properties == nil, nil, t.Rows[row].Cells[col].Properties.Shd)) && t.Rows[row].Cells[col].Properties.TextDirection == old(ite(t.Rows[row].Cells[col].Properties == nil, nil, t.Rows[row].Cells[col].Properties.TextDirection)) && t.Rows[row].Cells[col].Properties.VAlign == old(ite(t.Rows[row].Cells[col].Properties == nil, nil, t.Rows[row].Cells[col].Properties.VAlign))
+//@ ensures err == nil ==> forall r int, c int :: 0 <= r && r < len(t.Rows) && 0 <= c && c < len(t.Rows[r].Cells) && (r != row || c != col) ==> t.Rows[r].Cells[c].Properties == old(t.Rows[r].Cells[c].Properties) && (t.Rows[r].Cells[c].Properties != nil ==> t.Rows[r].Cells[c].Properties.TcBorders == old(t.Rows[r].Cells[c].Properties.TcBorders))
+//@ ensures err == nil ==> rowsOwn(t) && cellPropsOwn(t)
+//@ ensures err == nil && old(rowPropsOwn(t)) ==> rowPropsOwn(t)
+//@ ensures err == nil && old(cellParasOwn(t)) ==> cellParasOwn(t)
+//@ ensures err == nil && old(paraRunsOwn(t)) ==> paraRunsOwn(t)
+
+//@ func (*Table).RemoveCellBorders
+//@ props C09
+//@ requires t != nil && rowsOwn(t) && cellPropsOwn(t)
+//@ modifies TableCell.Properties, TableCellProperties.TcBorders
+//@ ensures err == nil <==> (0 <= row && row < len(t.Rows) && 0 <= col && col < len(t.Rows[row].Cells))
+//@ ensures err != nil ==> unchangedHeap()
+//@ ensures err == nil ==> t.Rows[row].Cells[col].Properties != nil && (old(t.Rows[row].Cells[col].Properties) != nil ==> t.Rows[row].Cells[col].Properties == old(t.Rows[row].Cells[col].Properties)) && (old(t.Rows[row].Cells[col].Properties) == nil ==> fresh(t.Rows[row].Cells[col].Properties))
+//@ ensures err == nil ==> t.Rows[row].Cells[col].Properties.TcBorders != nil && fresh(t.Rows[row].Cells[col].Properties.TcBorders)
+//@ ensures err == nil ==> t.Rows[row].Cells[col].Properties.TcBorders.Top != nil && t.Rows[row].Cells[col].Properties.TcBorders.Top.Val == "none" && t.Rows[row].Cells[col].Properties.TcBorders.Left != nil && t.Rows[row].Cells[col].Properties.TcBorders.Left.Val == "none" && t.Rows[row].Cells[col].Properties.TcBorders.Bottom != nil && t.Rows[row].Cells[col].Properties.TcBorders.Bottom.Val == "none" && t.Rows[row].Cells[col].Properties.TcBorders.Right != nil && t.Rows[row].Cells[col].Properties.TcBorders.Right.Val == "none" && t.Rows[row].Cells[col].Properties.TcBorders.TL2BR == nil && t.Rows[row].Cells[col].Properties.TcBorders.TR2BL == nil
+//@ ensures err == nil ==> t.Rows[row].Cells[col].Properties.GridSpan == old(ite(t.Rows[row].Cells[col].Properties == nil, nil, t.Rows[row].Cells[col].Properties.GridSpan)) && t.Rows[row].Cells[col].Properties.VMerge == old(ite(t.Rows[row].Cells[col].Properties == nil, nil, t.Rows[row].Cells[col].Properties.VMerge)) && t.Rows[row].Cells[col].Properties.Shd == old(ite(t.Rows[row].Cells[col].Properties == nil, nil, t.Rows[row].Cells[col].Properties.Shd))
+//@ ensures err == nil ==> forall r int, c int :: 0 <= r && r < len(t.Rows) && 0 <= c && c < len(t.Rows[r].Cells) && (r != row || c != col) ==> t.Rows[r].Cells[c].Properties == old(t.Rows[r].Cells[c].Properties) && (t.Rows[r].Cells[c].Properties != nil ==> t.Rows[r].Cells[c].Properties.TcBorders == old(t.Rows[r].Cells[c].Properties.TcBorders))
+//@ ensures err == nil ==> rowsOwn(t) && cellPropsOwn(t)
+//@ ensures err == nil && old(rowPropsOwn(t)) ==> rowPropsOwn(t)
+//@ ensures err == nil && old(cellParasOwn(t)) ==> cellParasOwn(t)
+//@ ensures err == nil && old(paraRunsOwn(t)) ==> paraRunsOwn(t)
+
+//@ func (*Table).SetCellPadding
+//@ props C09
+//@ requires t != nil
+//@ modifies nothing
+//@ ensures err == nil <==> (0 <= row && row < len(t.Rows) && 0 <= col && col < len(t.Rows[row].Cells))
+
+// ---------------------------------------------------------------- row formatters
+
+//@ func (*Table).SetRowHeightRange
+//@ props C09
+//@ requires t != nil && rowPropsOwn(t)
+//@ modifies TableRow.Properties, TableRowProperties.TableRowH
+//@ ensures err == nil <==> (0 <= startRow && startRow <= endRow && endRow < len(t.Rows) && config != nil)
+//@ ensures err != nil ==> unchangedHeap()
+//@ ensures err == nil ==> rowPropsOwn(t)
+//@ ensures err == nil ==> forall r int :: startRow <= r && r <= endRow ==> t.Rows[r].Properties != nil && (old(t.Rows[r].Properties) != nil ==> t.Rows[r].Properties == old(t.Rows[r].Properties)) && t.Rows[r].Properties.TableRowH != nil && t.Rows[r].Properties.TableRowH.Val == itoa(config.Height * 20) && t.Rows[r].Properties.TableRowH.HRule == string(config.Rule)
+//@ ensures err == nil ==> forall r int :: 0 <= r && r < len(t.Rows) && (r < startRow || r > endRow) ==> t.Rows[r].Properties == old(t.Rows[r].Properties) && (t.Rows[r].Properties != nil ==> t.Rows[r].Properties.TableRowH == old(t.Rows[r].Properties.TableRowH))
+//@ ensures err == nil && old(rowsOwn(t)) ==> rowsOwn(t)
+//@ ensures err == nil && old(cellPropsOwn(t)) ==> cellPropsOwn(t)
+//@ ensures err == nil && old(cellParasOwn(t)) ==> cellParasOwn(t)
+//@ ensures err == nil && old(paraRunsOwn(t)) ==> paraRunsOwn(t)
+//@ loop 1
+//@   invariant startRow <= i && i <= endRow + 1
+//@   invariant config == nil ==> unchangedHeap() && i == startRow
+//@   invariant rowPropsOwn(t)
+//@   invariant forall r int :: startRow <= r && r < i ==> t.Rows[r].Properties != nil && (old(t.Rows[r].Properties) != nil ==> t.Rows[r].Properties == old(t.Rows[r].Properties)) && t.Rows[r].Properties.TableRowH != nil && t.Rows[r].Properties.TableRowH.Val == itoa(config.Height * 20) && t.Rows[r].Properties.TableRowH.HRule == string(config.Rule)
+//@   invariant forall r int :: 0 <= r && r < len(t.Rows) && (r < startRow || r >= i) ==> t.Rows[r].Properties == old(t.Rows[r].Properties)
+//@   invariant forall r int :: 0 <= r && r < len(t.Rows) && (r < startRow || r >= i) && t.Rows[r].Properties != nil ==> t.Rows[r].Properties.TableRowH == old(t.Rows[r].Properties.TableRowH)
+//@   decreases endRow + 1 - i
+
+//@ func (*Table).SetRowKeepWithNext
+//@ props C09
+//@ requires t != nil
+//@ modifies nothing
+//@ ensures err == nil <==> (0 <= rowIndex && rowIndex < len(t.Rows))
+
+//@ func (*TableRowProperties).SetCantSplit
+//@ props C09
+//@ requires trp != nil
+//@ modifies TableRowProperties.CantSplit
+//@ ensures cantSplit ==> fresh(trp.CantSplit) && trp.CantSplit.Val == "1"
+//@ ensures !cantSplit ==> trp.CantSplit == nil
+//@ ensures forall p *TableRowProperties :: p != trp ==> p.CantSplit == old(p.CantSplit)
+
+//@ func (*TableRowProperties).SetTblHeader
+//@ props C09
+//@ requires trp != nil
+//@ modifies TableRowProperties.TblHeader
+//@ ensures isHeader ==> fresh(trp.TblHeader) && trp.TblHeader.Val == "1"
+//@ ensures !isHeader ==> trp.TblHeader == nil
+//@ ensures forall p *TableRowProperties :: p != trp ==> p.TblHeader == old(p.TblHeader)
+
+// ---------------------------------------------------------------- table formatters (write t.Properties only; rows, cells, grid untouched by the frame)
+
+//@ func (*Table).SetTableBorders
+//@ props C09
+//@ requires t != nil
+//@ modifies Table.Properties, TableProperties.TableBorders
+//@ ensures err == nil <==> config != nil
+//@ ensures err != nil ==> unchangedHeap()
+//@ ensures err == nil ==> t.Properties != nil && (old(t.Properties) != nil ==> t.Properties == old(t.Properties)) && (old(t.Properties) == nil ==> fresh(t.Properties))
+//@ ensures err == nil ==> fresh(t.Properties.TableBorders) && ((t.Properties.TableBorders.Top != nil) == (config.Top != nil)) && ((t.Properties.TableBorders.Left != nil) == (config.Left != nil)) && ((t.Properties.TableBorders.Bottom != nil) == (config.Bottom != nil)) && ((t.Properties.TableBorders.Right != nil) == (config.Right != nil)) && ((t.Properties.TableBorders.InsideH != nil) == (config.InsideH != nil)) && ((t.Properties.TableBorders.InsideV != nil) == (config.InsideV != nil))
+//@ ensures err == nil && config.Top != nil ==> fresh(t.Properties.TableBorders.Top) && t.Properties.TableBorders.Top.Val == string(config.Top.Style) && t.Properties.TableBorders.Top.Sz == itoa(config.Top.Width) && t.Properties.TableBorders.Top.Space == itoa(config.Top.Space) && t.Properties.TableBorders.Top.Color == config.Top.Color
+//@ ensures err == nil && config.Left != nil ==> t.Properties.TableBorders.Left.Val == string(config.Left.Style)
+//@ ensures err == nil && config.Bottom != nil ==> t.Properties.TableBorders.Bottom.Val == string(config.Bottom.Style)
+//@ ensures err == nil && config.Right != nil ==> t.Properties.TableBorders.Right.Val == string(config.Right.Style)
+//@ ensures err == nil && config.InsideH != nil ==> t.Properties.TableBorders.InsideH.Val == string(config.InsideH.Style)
+//@ ensures err == nil && config.InsideV != nil ==> t.Properties.TableBorders.InsideV.Val == string(config.InsideV.Style)
+//@ ensures forall u *Table :: u != t && allocated(u) ==> u.Properties == old(u.Properties)
+//@ ensures old(rowsOwn(t)) ==> rowsOwn(t)
+//@ ensures old(cellPropsOwn(t)) ==> cellPropsOwn(t)
+//@ ensures old(rowPropsOwn(t)) ==> rowPropsOwn(t)
+//@ ensures old(cellParasOwn(t)) ==> cellParasOwn(t)
+//@ ensures old(paraRunsOwn(t)) ==> paraRunsOwn(t)
+
+//@ func (*Table).RemoveTableBorders
+//@ props C09
+//@ requires t != nil
+//@ modifies Table.Properties, TableProperties.TableBorders
+//@ ensures err == nil
+//@ ensures t.Properties != nil && (old(t.Properties) != nil ==> t.Properties == old(t.Properties)) && (old(t.Properties) == nil ==> fresh(t.Properties))
+//@ ensures fresh(t.Properties.TableBorders) && t.Properties.TableBorders.Top != nil && t.Properties.TableBorders.Top.Val == "none" && t.Properties.TableBorders.Left != nil && t.Properties.TableBorders.Left.Val == "none" && t.Properties.TableBorders.Bottom != nil && t.Properties.TableBorders.Bottom.Val == "none" && t.Properties.TableBorders.Right != nil && t.Properties.TableBorders.Right.Val == "none" && t.Properties.TableBorders.InsideH != nil && t.Properties.TableBorders.InsideH.Val == "none" && t.Properties.TableBorders.InsideV != nil && t.Properties.TableBorders.InsideV.Val == "none"
+//@ ensures forall u *Table :: u != t && allocated(u) ==> u.Properties == old(u.Properties)
+//@ ensures old(rowsOwn(t)) ==> rowsOwn(t)
+//@ ensures old(cellPropsOwn(t)) ==> cellPropsOwn(t)
+//@ ensures old(rowPropsOwn(t)) ==> rowPropsOwn(t)
+//@ ensures old(cellParasOwn(t)) ==> cellParasOwn(t)
+//@ ensures old(paraRunsOwn(t)) ==> paraRunsOwn(t)
+
+//@ func (*Table).SetTableShading
+//@ props C09
+//@ requires t != nil
+//@ modifies Table.Properties, TableProperties.Shd
+//@ ensures err == nil <==> config != nil
+//@ ensures err != nil ==> unchangedHeap()
+//@ ensures err == nil ==> t.Properties != nil && (old(t.Properties) != nil ==> t.Properties == old(t.Properties)) && (old(t.Properties) == nil ==> fresh(t.Properties))
+//@ ensures err == nil ==> fresh(t.Properties.Shd) && t.Properties.Shd.Val == string(config.Pattern) && t.Properties.Shd.Color == config.ForegroundColor && t.Properties.Shd.Fill == config.BackgroundColor
+//@ ensures forall u *Table :: u != t && allocated(u) ==> u.Properties == old(u.Properties)
+//@ ensures old(rowsOwn(t)) ==> rowsOwn(t)
+//@ ensures old(cellPropsOwn(t)) ==> cellPropsOwn(t)
+//@ ensures old(rowPropsOwn(t)) ==> rowPropsOwn(t)
+//@ ensures old(cellParasOwn(t)) ==> cellParasOwn(t)
+//@ ensures old(paraRunsOwn(t)) ==> paraRunsOwn(t)
+
+//@ func (*Table).SetTableLayout
+//@ props C09
+//@ requires t != nil
+//@ modifies Table.Properties, TableProperties.TableJc
+//@ ensures err == nil <==> config != nil
+//@ ensures err != nil ==> unchangedHeap()
+//@ ensures err == nil ==> t.Properties != nil && (old(t.Properties) != nil ==> t.Properties == old(t.Properties)) && (old(t.Properties) == nil ==> fresh(t.Properties))
+//@ ensures err == nil && string(config.Alignment) != "" ==> fresh(t.Properties.TableJc) && t.Properties.TableJc.Val == string(config.Alignment)
+//@ ensures err == nil && string(config.Alignment) == "" ==> t.Properties.TableJc == old(ite(t.Properties == nil, nil, t.Properties.TableJc))
+//@ ensures forall u *Table :: u != t && allocated(u) ==> u.Properties == old(u.Properties)
+//@ ensures old(rowsOwn(t)) ==> rowsOwn(t)
+//@ ensures old(cellPropsOwn(t)) ==> cellPropsOwn(t)
+//@ ensures old(rowPropsOwn(t)) ==> rowPropsOwn(t)
+//@ ensures old(cellParasOwn(t)) ==> cellParasOwn(t)
+//@ ensures old(paraRunsOwn(t)) ==> paraRunsOwn(t)
+
+//@ func (*Table).SetTableAlignment
+//@ props C09
+//@ requires t != nil
+//@ modifies Table.Properties, TableProperties.TableJc
+//@ ensures err == nil
+//@ ensures t.Properties != nil && (old(t.Properties) != nil ==> t.Properties == old(t.Properties)) && (old(t.Properties) == nil ==> fresh(t.Properties))
+//@ ensures string(alignment) != "" ==> fresh(t.Properties.TableJc) && t.Properties.TableJc.Val == string(alignment)
+//@ ensures string(alignment) == "" ==> t.Properties.TableJc == old(ite(t.Properties == nil, nil, t.Properties.TableJc))
+//@ ensures forall u *Table :: u != t && allocated(u) ==> u.Properties == old(u.Properties)
+//@ ensures old(rowsOwn(t)) ==> rowsOwn(t)
+//@ ensures old(cellPropsOwn(t)) ==> cellPropsOwn(t)
+//@ ensures old(rowPropsOwn(t)) ==> rowPropsOwn(t)
+//@ ensures old(cellParasOwn(t)) ==> cellParasOwn(t)
+//@ ensures old(paraRunsOwn(t)) ==> paraRunsOwn(t)
+
+//@ func (*Table).SetTablePageBreak
+//@ props C09
+//@ requires t != nil
+//@ modifies nothing
+//@ ensures err == nil <==> config != nil
+
+// SetAlternatingRowColors never fails on an owned table (every index it passes to SetCellShading is in range) and shades
+// every cell: rows 0, 2, 4, ... with evenRowColor, the others with oddRowColor; properties objects are kept where they
+// existed and are installed fresh (per cell) where they did not.
+//@ func (*Table).SetAlternatingRowColors
+//@ props C09
+//@ requires t != nil && rowsOwn(t) && cellPropsOwn(t)
+//@ modifies TableCell.Properties, TableCellProperties.Shd
+//@ ensures err == nil
+//@ ensures forall r int, c int :: 0 <= r && r < len(t.Rows) && 0 <= c && c < len(t.Rows[r].Cells) ==> t.Rows[r].Cells[c].Properties != nil && (old(t.Rows[r].Cells[c].Properties) != nil ==> t.Rows[r].Cells[c].Properties == old(t.Rows[r].Cells[c].Properties)) && t.Rows[r].Cells[c].Properties.Shd != nil && t.Rows[r].Cells[c].Properties.Shd.Val == "clear" && t.Rows[r].Cells[c].Properties.Shd.Fill == ite(r % 2 == 0, evenRowColor, oddRowColor)
+//@ ensures rowsOwn(t) && cellPropsOwn(t)
+//@ ensures old(rowPropsOwn(t)) ==> rowPropsOwn(t)
+//@ ensures old(cellParasOwn(t)) ==> cellParasOwn(t)
+//@ ensures old(paraRunsOwn(t)) ==> paraRunsOwn(t)
+//@ loop 1
+//@   invariant 0 <= #i && #i <= len(t.Rows)
+//@   invariant rowsOwn(t) && cellPropsOwn(t)
+//@   invariant forall r int, c int :: 0 <= r && r < len(t.Rows) && 0 <= c && c < len(t.Rows[r].Cells) && old(t.Rows[r].Cells[c].Properties) != nil ==> t.Rows[r].Cells[c].Properties == old(t.Rows[r].Cells[c].Properties)
+//@   invariant forall r int, c int :: 0 <= r && r < #i && 0 <= c && c < len(t.Rows[r].Cells) ==> t.Rows[r].Cells[c].Properties != nil && t.Rows[r].Cells[c].Properties.Shd != nil && t.Rows[r].Cells[c].Properties.Shd.Val == "clear" && t.Rows[r].Cells[c].Properties.Shd.Fill == ite(r % 2 == 0, evenRowColor, oddRowColor)
+//@   decreases len(t.Rows) - #i
+//@ loop 2
+//@   invariant 0 <= i && i < len(t.Rows) && 0 <= #i && #i <= len(t.Rows[i].Cells)
+//@   invariant bgColor == ite(i % 2 == 0, evenRowColor, oddRowColor)
+//@   invariant rowsOwn(t) && cellPropsOwn(t)
+//@   invariant forall r int, c int :: 0 <= r && r < len(t.Rows) && 0 <= c && c < len(t.Rows[r].Cells) && old(t.Rows[r].Cells[c].Properties) != nil ==> t.Rows[r].Cells[c].Properties == old(t.Rows[r].Cells[c].Properties)
+//@   invariant forall r int, c int :: 0 <= r && (r < i || (r == i && c < #i)) && 0 <= c && c < len(t.Rows[r].Cells) ==> t.Rows[r].Cells[c].Properties != nil && t.Rows[r].Cells[c].Properties.Shd != nil && t.Rows[r].Cells[c].Properties.Shd.Val == "clear" && t.Rows[r].Cells[c].Properties.Shd.Fill == ite(r % 2 == 0, evenRowColor, oddRowColor)
+//@   decreases len(t.Rows[i].Cells) - #i
+
+// AddCellFormattedText appends ONE run to the first paragraph of the cell (installing an empty first paragraph when the
+// cell has none). The append may happen in place, beyond the length of the run array: paraRunsOwn is what makes that
+// invisible to every other paragraph.
+//@ func (*Table).AddCellFormattedText
+//@ props C09
+//@ requires t != nil && rowsOwn(t) && cellParasOwn(t) && paraRunsOwn(t)
+//@ modifies TableCell.Paragraphs, Paragraph.Runs, Run.*
+//@ ensures err == nil <==> (0 <= row && row < len(t.Rows) && 0 <= col && col < len(t.Rows[row].Cells))
+//@ ensures err != nil ==> unchangedHeap()
+//@ ensures err == nil && old(len(t.Rows[row].Cells[col].Paragraphs)) > 0 ==> t.Rows[row].Cells[col].Paragraphs == old(t.Rows[row].Cells[col].Paragraphs) && len(t.Rows[row].Cells[col].Paragraphs[0].Runs) == old(len(t.Rows[row].Cells[col].Paragraphs[0].Runs)) + 1
+//@ ensures err == nil && old(len(t.Rows[row].Cells[col].Paragraphs)) == 0 ==> len(t.Rows[row].Cells[col].Paragraphs) == 1 && freshArr(t.Rows[row].Cells[col].Paragraphs) && len(t.Rows[row].Cells[col].Paragraphs[0].Runs) == 1 && t.Rows[row].Cells[col].Paragraphs[0].Properties == nil
+//@ ensures err == nil ==> t.Rows[row].Cells[col].Paragraphs[0].Runs[len(t.Rows[row].Cells[col].Paragraphs[0].Runs) - 1].Text.Content == text && ((t.Rows[row].Cells[col].Paragraphs[0].Runs[len(t.Rows[row].Cells[col].Paragraphs[0].Runs) - 1].Properties == nil) == (format == nil))
+//@ ensures err == nil && format != nil ==> fresh(t.Rows[row].Cells[col].Paragraphs[0].Runs[len(t.Rows[row].Cells[col].Paragraphs[0].Runs) - 1].Properties) && ((t.Rows[row].Cells[col].Paragraphs[0].Runs[len(t.Rows[row].Cells[col].Paragraphs[0].Runs) - 1].Properties.Bold != nil) == format.Bold) && ((t.Rows[row].Cells[col].Paragraphs[0].Runs[len(t.Rows[row].Cells[col].Paragraphs[0].Runs) - 1].Properties.Italic != nil) == format.Italic)
+//@ ensures err == nil && old(len(t.Rows[row].Cells[col].Paragraphs)) > 0 ==> forall j int :: 0 <= j && j < old(len(t.Rows[row].Cells[col].Paragraphs[0].Runs)) ==> t.Rows[row].Cells[col].Paragraphs[0].Runs[j] == old(t.Rows[row].Cells[col].Paragraphs[0].Runs[j])
+//@ ensures err == nil ==> forall k int :: 1 <= k && k < len(t.Rows[row].Cells[col].Paragraphs) ==> t.Rows[row].Cells[col].Paragraphs[k] == old(t.Rows[row].Cells[col].Paragraphs[k])
+//@ ensures err == nil ==> forall k int, j int :: 1 <= k && k < len(t.Rows[row].Cells[col].Paragraphs) && 0 <= j && j < len(t.Rows[row].Cells[col].Paragraphs[k].Runs) ==> t.Rows[row].Cells[col].Paragraphs[k].Runs[j] == old(t.Rows[row].Cells[col].Paragraphs[k].Runs[j])
+//@ ensures err == nil ==> forall r int, c int :: 0 <= r && r < len(t.Rows) && 0 <= c && c < len(t.Rows[r].Cells) && (r != row || c != col) ==> t.Rows[r].Cells[c].Paragraphs == old(t.Rows[r].Cells[c].Paragraphs)
+//@ ensures err == nil ==> forall r int, c int, k int :: 0 <= r && r < len(t.Rows) && 0 <= c && c < len(t.Rows[r].Cells) && (r != row || c != col) && 0 <= k && k < len(t.Rows[r].Cells[c].Paragraphs) ==> t.Rows[r].Cells[c].Paragraphs[k] == old(t.Rows[r].Cells[c].Paragraphs[k])
+//@ ensures err == nil ==> forall r int, c int, k int, j int :: 0 <= r && r < len(t.Rows) && 0 <= c && c < len(t.Rows[r].Cells) && (r != row || c != col) && 0 <= k && k < len(t.Rows[r].Cells[c].Paragraphs) && 0 <= j && j < len(t.Rows[r].Cells[c].Paragraphs[k].Runs) ==> t.Rows[r].Cells[c].Paragraphs[k].Runs[j] == old(t.Rows[r].Cells[c].Paragraphs[k].Runs[j])
+//@ ensures err == nil ==> rowsOwn(t)
+//@ ensures err == nil ==> cellParasOwn(t)
+//@ ensures err == nil ==> paraRunsOwn(t)
+//@ ensures err == nil && old(cellPropsOwn(t)) ==> cellPropsOwn(t)
+//@ ensures err == nil && old(rowPropsOwn(t)) ==> rowPropsOwn(t)
+
+// SetCellFormat writes the cell's own properties object (VAlign, TextDirection), the properties of its FIRST paragraph
+// (Justification) and of that paragraph's FIRST run; it installs an empty paragraph / run when there is none. Texts are
+// untouched (Run.Text.* is not in the frame). Not claimed: paragraph- and run-properties OBJECTS are not covered by an
+// ownership predicate, so "another cell's paragraph does not see the new justification" is stated at pointer level only.
+//@ func (*Table).SetCellFormat
+//@ props C09
+//@ requires t != nil && rowsOwn(t) && cellPropsOwn(t) && cellParasOwn(t) && paraRunsOwn(t)
+//@ modifies TableCell.Properties, TableCellProperties.VAlign, TableCellProperties.TextDirection, TableCell.Paragraphs, Paragraph.Properties, ParagraphProperties.Justification, Paragraph.Runs, Run.Properties, RunProperties.Bold, RunProperties.Italic, RunProperties.FontSize, RunProperties.Color, RunProperties.FontFamily
+//@ ensures err == nil <==> (0 <= row && row < len(t.Rows) && 0 <= col && col < len(t.Rows[row].Cells) && format != nil)
+//@ ensures err != nil ==> unchangedHeap()
+//@ ensures err == nil ==> t.Rows[row].Cells[col].Properties != nil && (old(t.Rows[row].Cells[col].Properties) != nil ==> t.Rows[row].Cells[col].Properties == old(t.Rows[row].Cells[col].Properties)) && (old(t.Rows[row].Cells[col].Properties) == nil ==> fresh(t.Rows[row].Cells[col].Properties))
+//@ ensures err == nil && string(format.VerticalAlign) != "" ==> fresh(t.Rows[row].Cells[col].Properties.VAlign) && t.Rows[row].Cells[col].Properties.VAlign.Val == string(format.VerticalAlign)
+//@ ensures err == nil && string(format.VerticalAlign) == "" ==> t.Rows[row].Cells[col].Properties.VAlign == old(ite(t.Rows[row].Cells[col].Properties == nil, nil, t.Rows[row].Cells[col].Properties.VAlign))
+//@ ensures err == nil && string(format.TextDirection) != "" ==> fresh(t.Rows[row].Cells[col].Properties.TextDirection) && t.Rows[row].Cells[col].Properties.TextDirection.Val == string(format.TextDirection)
+//@ ensures err == nil && string(format.TextDirection) == "" ==> t.Rows[row].Cells[col].Properties.TextDirection == old(ite(t.Rows[row].Cells[col].Properties == nil, nil, t.Rows[row].Cells[col].Properties.TextDirection))
+//@ ensures err == nil ==> t.Rows[row].Cells[col].Properties.GridSpan == old(ite(t.Rows[row].Cells[col].Properties == nil, nil, t.Rows[row].Cells[col].Properties.GridSpan)) && t.Rows[row].Cells[col].Properties.VMerge == old(ite(t.Rows[row].Cells[col].Properties == nil, nil, t.Rows[row].Cells[col].Properties.VMerge)) && t.Rows[row].Cells[col].Properties.TcBorders == old(ite(t.Rows[row].Cells[col].Properties == nil, nil, t.Rows[row].Cells[col].Properties.TcBorders)) && t.Rows[row].Cells[col].Properties.Shd == old(ite(t.Rows[row].Cells[col].Properties == nil, nil, t.Rows[row].Cells[col].Properties.Shd))
+//@ ensures err == nil && old(len(t.Rows[row].Cells[col].Paragraphs)) > 0 ==> t.Rows[row].Cells[col].Paragraphs == old(t.Rows[row].Cells[col].Paragraphs)
+//@ ensures err == nil && old(len(t.Rows[row].Cells[col].Paragraphs)) == 0 ==> len(t.Rows[row].Cells[col].Paragraphs) == 1 && freshArr(t.Rows[row].Cells[col].Paragraphs)
+//@ ensures err == nil && string(format.HorizontalAlign) != "" ==> t.Rows[row].Cells[col].Paragraphs[0].Properties != nil && fresh(t.Rows[row].Cells[col].Paragraphs[0].Properties.Justification) && t.Rows[row].Cells[col].Paragraphs[0].Properties.Justification.Val == string(format.HorizontalAlign)
+//@ ensures err == nil && string(format.HorizontalAlign) == "" && old(len(t.Rows[row].Cells[col].Paragraphs)) > 0 ==> t.Rows[row].Cells[col].Paragraphs[0].Properties == old(t.Rows[row].Cells[col].Paragraphs[0].Properties)
+//@ ensures err == nil && format.TextFormat == nil && old(len(t.Rows[row].Cells[col].Paragraphs)) > 0 ==> t.Rows[row].Cells[col].Paragraphs[0].Runs == old(t.Rows[row].Cells[col].Paragraphs[0].Runs)
+//@ ensures err == nil && format.TextFormat != nil && old(len(t.Rows[row].Cells[col].Paragraphs)) > 0 && old(len(t.Rows[row].Cells[col].Paragraphs[0].Runs)) > 0 ==> t.Rows[row].Cells[col].Paragraphs[0].Runs == old(t.Rows[row].Cells[col].Paragraphs[0].Runs)
+//@ ensures err == nil && format.TextFormat != nil ==> len(t.Rows[row].Cells[col].Paragraphs[0].Runs) >= 1 && t.Rows[row].Cells[col].Paragraphs[0].Runs[0].Properties != nil && (format.TextFormat.Bold ==> t.Rows[row].Cells[col].Paragraphs[0].Runs[0].Properties.Bold != nil) && (format.TextFormat.Italic ==> t.Rows[row].Cells[col].Paragraphs[0].Runs[0].Properties.Italic != nil) && (format.TextFormat.FontSize > 0 ==> t.Rows[row].Cells[col].Paragraphs[0].Runs[0].Properties.FontSize != nil && t.Rows[row].Cells[col].Paragraphs[0].Runs[0].Properties.FontSize.Val == itoa(format.TextFormat.FontSize * 2)) && (format.TextFormat.FontColor != "" ==> t.Rows[row].Cells[col].Paragraphs[0].Runs[0].Properties.Color != nil && t.Rows[row].Cells[col].Paragraphs[0].Runs[0].Properties.Color.Val == format.TextFormat.FontColor)
+//@ ensures err == nil ==> forall k int :: 1 <= k && k < len(t.Rows[row].Cells[col].Paragraphs) ==> t.Rows[row].Cells[col].Paragraphs[k] == old(t.Rows[row].Cells[col].Paragraphs[k])
+//@ ensures err == nil ==> forall k int, j int :: 0 <= k && k < old(len(t.Rows[row].Cells[col].Paragraphs)) && 0 <= j && j < old(len(t.Rows[row].Cells[col].Paragraphs[k].Runs)) && (k != 0 || j != 0) ==> t.Rows[row].Cells[col].Paragraphs[k].Runs[j] == old(t.Rows[row].Cells[col].Paragraphs[k].Runs[j])
+//@ ensures err == nil ==> forall r int, c int :: 0 <= r && r < len(t.Rows) && 0 <= c && c < len(t.Rows[r].Cells) && (r != row || c != col) ==> t.Rows[r].Cells[c].Properties == old(t.Rows[r].Cells[c].Properties) && (t.Rows[r].Cells[c].Properties != nil ==> t.Rows[r].Cells[c].Properties.VAlign == old(t.Rows[r].Cells[c].Properties.VAlign) && t.Rows[r].Cells[c].Properties.TextDirection == old(t.Rows[r].Cells[c].Properties.TextDirection))
+//@ ensures err == nil ==> forall r int, c int :: 0 <= r && r < len(t.Rows) && 0 <= c && c < len(t.Rows[r].Cells) && (r != row || c != col) ==> t.Rows[r].Cells[c].Paragraphs == old(t.Rows[r].Cells[c].Paragraphs)
+//@ ensures err == nil ==> forall r int, c int, k int :: 0 <= r && r < len(t.Rows) && 0 <= c && c < len(t.Rows[r].Cells) && (r != row || c != col) && 0 <= k && k < len(t.Rows[r].Cells[c].Paragraphs) ==> t.Rows[r].Cells[c].Paragraphs[k] == old(t.Rows[r].Cells[c].Paragraphs[k])
+//@ ensures err == nil ==> forall r int, c int, k int, j int :: 0 <= r && r < len(t.Rows) && 0 <= c && c < len(t.Rows[r].Cells) && (r != row || c != col) && 0 <= k && k < len(t.Rows[r].Cells[c].Paragraphs) && 0 <= j && j < len(t.Rows[r].Cells[c].Paragraphs[k].Runs) ==> t.Rows[r].Cells[c].Paragraphs[k].Runs[j] == old(t.Rows[r].Cells[c].Paragraphs[k].Runs[j])
+//@ ensures err == nil ==> rowsOwn(t)
+//@ ensures err == nil ==> cellPropsOwn(t)
+//@ ensures err == nil ==> cellParasOwn(t)
+//@ ensures err == nil ==> paraRunsOwn(t)
+//@ ensures err == nil && old(rowPropsOwn(t)) ==> rowPropsOwn(t)
+
+// ---------------------------------------------------------------- readers: no side effect on any pre-existing object, no panic for any index
+
+//@ func (*Table).GetCellTextDirection
+//@ props C09
+//@ requires t != nil
+//@ modifies nothing
+//@ ensures err == nil <==> (0 <= row && row < len(t.Rows) && 0 <= col && col < len(t.Rows[row].Cells))
+//@ ensures err == nil && t.Rows[row].Cells[col].Properties != nil && t.Rows[row].Cells[col].Properties.TextDirection != nil ==> string(result0) == t.Rows[row].Cells[col].Properties.TextDirection.Val
+//@ ensures !(err == nil && t.Rows[row].Cells[col].Properties != nil && t.Rows[row].Cells[col].Properties.TextDirection != nil) ==> string(result0) == "lrTb"
+
+// GetCellFormat is NOT under contract: it hands &format.TextFormat.FontSize (an interior pointer) to fmt.Sscanf, which
+// the engine reports as outside-subset.
+
+//@ func (*Table).GetMergedCellInfo
+//@ props C09
+//@ requires t != nil
+//@ modifies nothing
+//@ ensures err == nil <==> (0 <= row && row < len(t.Rows) && 0 <= col && col < len(t.Rows[row].Cells))
+
+//@ func (*Table).GetNestedTables
+//@ props C09
+//@ requires t != nil
+//@ modifies nothing
+//@ ensures err == nil <==> (0 <= row && row < len(t.Rows) && 0 <= col && col < len(t.Rows[row].Cells))
+//@ ensures err != nil ==> len(result0) == 0 && arr(result0) == 0
+//@ ensures err == nil ==> result0 == t.Rows[row].Cells[col].Tables
+
+//@ func (*Table).GetRowHeight
+//@ props C09
+//@ requires t != nil
+//@ modifies nothing
+//@ ensures err == nil <==> (0 <= rowIndex && rowIndex < len(t.Rows))
+//@ ensures err != nil ==> result0 == nil
+//@ ensures err == nil ==> fresh(result0)
+//@ ensures err == nil && (t.Rows[rowIndex].Properties == nil || t.Rows[rowIndex].Properties.TableRowH == nil) ==> result0.Height == 0 && string(result0.Rule) == "auto"
+//@ ensures err == nil && t.Rows[rowIndex].Properties != nil && t.Rows[rowIndex].Properties.TableRowH != nil ==> string(result0.Rule) == ite(t.Rows[rowIndex].Properties.TableRowH.HRule != "", t.Rows[rowIndex].Properties.TableRowH.HRule, "auto")
+
+//@ func (*Table).IsRowKeepTogether
+//@ props C09
+//@ requires t != nil
+//@ modifies nothing
+//@ ensures err == nil <==> (0 <= rowIndex && rowIndex < len(t.Rows))
+//@ ensures err != nil ==> result0 == false
+//@ ensures err == nil ==> (result0 <==> (t.Rows[rowIndex].Properties != nil && t.Rows[rowIndex].Properties.CantSplit != nil && t.Rows[rowIndex].Properties.CantSplit.Val == "1"))
+
+//@ func (*Table).GetTableLayout
+//@ props C09
+//@ requires t != nil
+//@ modifies nothing
+//@ ensures fresh(result) && string(result.Alignment) == ite(t.Properties != nil && t.Properties.TableJc != nil, t.Properties.TableJc.Val, "left") && string(result.TextWrap) == "none" && string(result.Position) == "inline" && result.Positioning == nil
+
+//@ func (*Table).GetTableBreakInfo
+//@ props C09
+//@ requires t != nil
+//@ modifies nothing
+//@ loop 1
+//@   invariant 0 <= #i && #i <= len(t.Rows) && unchangedHeap()
+//@   decreases len(t.Rows) - #i
+
+//@ func (*CellIterator).Progress
+//@ props C09
+//@ requires iter != nil
+//@ modifies nothing
+
+// ---------------------------------------------------------------- iterators over caller-supplied callbacks
+// The callbacks are caller code: the engine assumes that they return and write no document memory (the callback-purity
+// assumption that every evidence file lists) ; a nil fn / predicate is rejected with an error before anything is read (it used to panic).
+// What is proved is the part the library owns: no index leaves the grid (ragged tables included), nothing that existed
+// before the call is written, the iterator the loop drives is the function's own.
+
+//@ func (*Table).ForEach
+//@ props C09
+//@ requires t != nil
+//@ modifies nothing
+//@ ensures fn == nil ==> err != nil
+//@ loop 1
+//@   invariant iterator != nil && fresh(iterator) && iterator.table == t && unchangedHeap()
+
+//@ func (*Table).ForEachInRow
+//@ props C09
+//@ requires t != nil
+//@ modifies nothing
+//@ ensures fn == nil ==> err != nil
+//@ ensures !(0 <= rowIndex && rowIndex < len(t.Rows)) ==> err != nil
+//@ loop 1
+//@   invariant 0 <= col && col <= colCount && unchangedHeap()
+//@   decreases colCount - col
+
+//@ func (*Table).ForEachInColumn
+//@ props C09
+//@ requires t != nil
+//@ modifies nothing
+//@ ensures fn == nil ==> err != nil
+//@ ensures !(0 <= colIndex && len(t.Rows) > 0 && colIndex < len(t.Rows[0].Cells)) ==> err != nil
+//@ loop 1
+//@   invariant 0 <= row && row <= rowCount && unchangedHeap()
+//@   decreases rowCount - row
+
+//@ func (*Table).FindCells
+//@ props C09
+//@ requires t != nil
+//@ modifies nothing
+//@ ensures predicate == nil ==> err != nil && len(result0) == 0
+
+//@ func (*Table).FindCellsByText
+//@ props C09
+//@ requires t != nil
+//@ modifies nothing
+
+//@ func (*Table).FindCellsByText$1
+//@ props C09
+//@ modifies nothing
+//@ ensures exactMatch ==> (result <==> text == searchText)
+
+// The literal FindCells hands to ForEach: appends to its captured result slice only; never reports an error.
+//@ func (*Table).FindCells$1
+//@ props C09
+//@ modifies cell:[]*CellInfo, []*CellInfo
+//@ ensures result == nil
+
+// AddCellList appends one single-run paragraph per list item to the addressed cell (validation of the configuration
+// happens before the first write, so failure is atomic).
+//@ func (*Table).AddCellList
+//@ props C09
+//@ appendfacts
+//@ requires t != nil && rowsOwn(t) && cellParasOwn(t)
+//@ modifies TableCell.Paragraphs, Paragraph.*
+//@ ensures err == nil <==> (0 <= row && row < len(t.Rows) && 0 <= col && col < len(t.Rows[row].Cells) && config != nil && len(config.Items) > 0)
+//@ ensures err != nil ==> unchangedHeap()
+//@ ensures err == nil ==> len(t.Rows[row].Cells[col].Paragraphs) == old(len(t.Rows[row].Cells[col].Paragraphs)) + len(config.Items)
+//@ ensures err == nil ==> forall k int :: 0 <= k && k < old(len(t.Rows[row].Cells[col].Paragraphs)) ==> t.Rows[row].Cells[col].Paragraphs[k] == old(t.Rows[row].Cells[col].Paragraphs[k])
+//@ ensures err == nil ==> forall k int :: old(len(t.Rows[row].Cells[col].Paragraphs)) <= k && k < len(t.Rows[row].Cells[col].Paragraphs) ==> len(t.Rows[row].Cells[col].Paragraphs[k].Runs) == 1 && freshArr(t.Rows[row].Cells[col].Paragraphs[k].Runs) && t.Rows[row].Cells[col].Paragraphs[k].Properties == nil
+//@ ensures err == nil ==> forall r int, c int :: 0 <= r && r < len(t.Rows) && 0 <= c && c < len(t.Rows[r].Cells) && (r != row || c != col) ==> t.Rows[r].Cells[c].Paragraphs == old(t.Rows[r].Cells[c].Paragraphs)
+//@ ensures err == nil ==> forall r int, c int, k int :: 0 <= r && r < len(t.Rows) && 0 <= c && c < len(t.Rows[r].Cells) && (r != row || c != col) && 0 <= k && k < len(t.Rows[r].Cells[c].Paragraphs) ==> t.Rows[r].Cells[c].Paragraphs[k] == old(t.Rows[r].Cells[c].Paragraphs[k])
+//@ ensures err == nil ==> rowsOwn(t)
+//@ ensures err == nil ==> cellParasOwn(t)
+//@ ensures err == nil && old(cellPropsOwn(t)) ==> cellPropsOwn(t)
+//@ ensures err == nil && old(rowPropsOwn(t)) ==> rowPropsOwn(t)
+//@ ensures err == nil && old(paraRunsOwn(t)) ==> paraRunsOwn(t)
+//@ loop 1
+//@   invariant 0 <= #i && #i <= len(config.Items) && 0 <= row && row < len(t.Rows) && 0 <= col && col < len(t.Rows[row].Cells) && cell == &t.Rows[row].Cells[col]
+//@   invariant forall k int :: old(len(cell.Paragraphs)) <= k && k < len(cell.Paragraphs) ==> arr(cell.Paragraphs[k].Runs) < allocBound()
+//@   invariant forall k1 int, k2 int :: old(len(cell.Paragraphs)) <= k1 && k1 < k2 && k2 < len(cell.Paragraphs) ==> arr(cell.Paragraphs[k1].Runs) != arr(cell.Paragraphs[k2].Runs)
+//@   invariant unchangedExcept("TableCell.Paragraphs", "Paragraph.*")
+//@   invariant len(cell.Paragraphs) == old(len(cell.Paragraphs)) + #i
+//@   invariant arr(cell.Paragraphs) < allocBound() && (arr(cell.Paragraphs) == old(arr(cell.Paragraphs)) || freshArr(cell.Paragraphs)) && (arr(cell.Paragraphs) == old(arr(cell.Paragraphs)) ==> off(cell.Paragraphs) == old(off(cell.Paragraphs)))
+//@   invariant forall k int :: 0 <= k && k < old(len(cell.Paragraphs)) ==> cell.Paragraphs[k] == old(cell.Paragraphs[k])
+//@   invariant forall k int :: old(len(cell.Paragraphs)) <= k && k < len(cell.Paragraphs) ==> len(cell.Paragraphs[k].Runs) == 1 && freshArr(cell.Paragraphs[k].Runs) && cell.Paragraphs[k].Properties == nil
+//@   invariant forall r int, c int :: 0 <= r && r < len(t.Rows) && 0 <= c && c < len(t.Rows[r].Cells) && (r != row || c != col) ==> t.Rows[r].Cells[c].Paragraphs == old(t.Rows[r].Cells[c].Paragraphs)
+//@   invariant forall r int, c int, k int :: 0 <= r && r < len(t.Rows) && 0 <= c && c < len(t.Rows[r].Cells) && (r != row || c != col) && 0 <= k && k < len(t.Rows[r].Cells[c].Paragraphs) ==> t.Rows[r].Cells[c].Paragraphs[k] == old(t.Rows[r].Cells[c].Paragraphs[k])
+//@   invariant cellParasOwn(t)
+//@   decreases len(config.Items) - #i
+
+// CreateCustomTableStyle = ApplyTableStyle + SetTableBorders + SetTableShading; it cannot fail (both configurations are
+// nil-checked before they are handed on). It writes table properties only, so rows, cells and paragraphs keep their owners.
+//@ func (*Table).CreateCustomTableStyle
+//@ props C09
+//@ requires t != nil
+//@ modifies Table.Properties, TableProperties.*, TableLook.*
+//@ ensures err == nil
+//@ ensures t.Properties != nil
+//@ ensures shadingConfig != nil ==> t.Properties.Shd != nil && fresh(t.Properties.Shd) && t.Properties.Shd.Fill == shadingConfig.BackgroundColor
+//@ ensures borderConfig != nil && shadingConfig == nil ==> t.Properties.TableBorders != nil && fresh(t.Properties.TableBorders)
+//@ ensures old(rowsOwn(t)) ==> rowsOwn(t)
+//@ ensures old(cellPropsOwn(t)) ==> cellPropsOwn(t)
+//@ ensures old(rowPropsOwn(t)) ==> rowPropsOwn(t)
+//@ ensures old(cellParasOwn(t)) ==> cellParasOwn(t)
+//@ ensures old(paraRunsOwn(t)) ==> paraRunsOwn(t)
+
+// Roman numerals of AddCellList: pure, and the 13-entry symbol table is indexed within bounds (the slice literals are
+// SSA values, their lengths need no invariant). Termination of the inner subtraction loop is not claimed.
+//@ func toRomanUpper
+//@ props C09
+//@ modifies nothing
+//@ loop 1
+//@   invariant 0 <= #i && #i <= len(values) && unchangedHeap()
+//@   decreases len(values) - #i
+//@ loop 2
+//@   invariant 0 <= i && i < len(values) && unchangedHeap()
+
+//@ func toRomanLower
+//@ props C09
+//@ modifies nothing
